@@ -4,8 +4,8 @@
 # Accepted seeds are copied to /verif/seeded/<Cxx>-m<i>/ (patch.diff, demo.py, meta.json + verified.json)
 set -u
 W=/tmp/vseed_wt
-git -C /repo worktree remove --force $W 2>/dev/null
-git -C /repo worktree add -q --detach $W HEAD || exit 1
+rm -rf $W
+git clone -q /repo $W || exit 1      # committed HEAD only: independent of whatever is applied in /repo's working tree
 SEED_ROOT=${SEED_ROOT:-/tmp/seed}
 for d in $SEED_ROOT/C*/_out/mut*; do
   prop=$(echo $d | sed 's#.*/\(C[0-9][0-9]\)/_out/.*#\1#'); i=$(basename $d | sed 's/mut//')
@@ -42,4 +42,4 @@ json.dump(m,open(dst,"w"),indent=1)
 PY
   fi
 done
-cd / && git -C /repo worktree remove --force $W
+cd / && rm -rf $W
